@@ -339,17 +339,23 @@ def tdiv_r := tdiv_rV .c
 
 /-! ## floor / ceiling wrappers, mpz_mod -/
 
+/-- fdiv_qr.c:39-44 (also fdiv_r.c:38-43, mod.c:38-43 and the cdiv files):
+    `if (…) { MPZ_TMP_INIT (temp_divisor, ABS (divisor_size)); mpz_set (temp_divisor, divisor); divisor = temp_divisor; }`
+    — returns the variable to use as divisor from here on -/
+def tempDivisor (copied : Bool) (divisor : Nat) (s : St) : R (Nat × St) :=
+  if copied then do
+    let r := s.tmpInit (s.size divisor).natAbs
+    let s ← mpz_set r.1 divisor r.2
+    pure (r.1, s)
+  else pure (divisor, s)
+
 /-- mpz_fdiv_qr / mpz_cdiv_qr: fdiv_qr.c:29-57, cdiv_qr.c:29-57 (`ceil`: the test is `xsize >= 0`, the
     adjustment `add_ui` / `sub`). -/
 def cfdiv_qrV (V : Variant) (ceil : Bool) (quot rem dividend divisor : Nat) (s : St) : R St := do
   let divisor_size := s.size divisor                          -- fdiv_qr.c:29
   -- :39-44 temp_divisor
   let copied : Bool := V.fdivCopy ∧ (quot = divisor ∨ rem = divisor)
-  let (dv, s) ← (if copied then do
-      let r := s.tmpInit divisor_size.natAbs                  -- :41
-      let s ← mpz_set r.1 divisor r.2                         -- :42
-      pure (r.1, s)                                           -- :43
-    else pure (divisor, s))
+  let (dv, s) ← tempDivisor copied divisor s                  -- :41-43
   let same : Bool := sameSign (s.size dividend) divisor_size  -- :46 xsize = dividend->_mp_size ^ divisor_size
   let s ← tdiv_qrV V quot rem dividend dv s                   -- :47
   let s ← (if (if ceil then same else !same) ∧ s.size rem ≠ 0 then do   -- :49
@@ -382,11 +388,7 @@ def cdiv_q := cfdiv_qV .c true
 def cfdiv_rV (V : Variant) (ceil : Bool) (rem dividend divisor : Nat) (s : St) : R St := do
   let divisor_size := s.size divisor                          -- fdiv_r.c:29
   let copied : Bool := V.fdivCopy ∧ rem = divisor             -- :38
-  let (dv, s) ← (if copied then do
-      let r := s.tmpInit divisor_size.natAbs                  -- :40
-      let s ← mpz_set r.1 divisor r.2                         -- :41
-      pure (r.1, s)
-    else pure (divisor, s))
+  let (dv, s) ← tempDivisor copied divisor s                  -- :40-42
   let s ← tdiv_rV V rem dividend dv s                         -- :45
   let same : Bool := sameSign divisor_size (s.size dividend)  -- :47
   let s ← (if (if ceil then same else !same) ∧ s.size rem ≠ 0 then
@@ -399,13 +401,9 @@ def cdiv_r := cfdiv_rV .c true
 
 /-- mpz_mod (rem, dividend, divisor): mod.c:29-62. -/
 def modV (V : Variant) (rem dividend divisor : Nat) (s : St) : R St := do
-  let divisor_size := s.size divisor                          -- mod.c:29
+  -- mod.c:29 divisor_size = divisor->_mp_size (used by MPZ_TMP_INIT only: inside `tempDivisor`)
   let copied : Bool := V.fdivCopy ∧ rem = divisor             -- :38
-  let (dv, s) ← (if copied then do
-      let r := s.tmpInit divisor_size.natAbs
-      let s ← mpz_set r.1 divisor r.2
-      pure (r.1, s)
-    else pure (divisor, s))
+  let (dv, s) ← tempDivisor copied divisor s                  -- :40-42
   let s ← tdiv_rV V rem dividend dv s                         -- :45
   let s ← (if s.size rem ≠ 0 then                             -- :47
       if s.size dividend < 0 then                             -- :49
